@@ -1,9 +1,10 @@
 SPECIFICATION GenSpec
 CONSTANTS
-  TN = {"a", "b"}
+  TN = {"a", "b", "c"}
   AN = {"x"}
-  RN = {"r", "s"}
+  RN = {"r"}
   MaxTypes = 2
+  Rich = TRUE
 VIEW View
 INVARIANTS EmitState
 CHECK_DEADLOCK FALSE
